@@ -118,9 +118,11 @@ def r1(ctx):
             ref.add(s)
         for host in HOSTS:
             def body(run):
-                jar = I.call(run, Cls(JAR), [], {}, None)
+                # responses enter the jar the way they do in production: through handshake_response.__init__,
+                # and the jar is the module-level one that _get_handshake_headers consults
                 for s in h:
-                    I.call(run, I.getattr(run, jar, "add", None), [C(s)], {}, None)
+                    I.call(run, Cls("_handshake:handshake_response"), [C(101), new_dict(run, {"set-cookie": C(s)}, False, "resp"), NONE], {}, None)
+                jar = I.module_env(run, "_handshake").vars["CookieJar"]
                 return I.call(run, I.getattr(run, jar, "get", None), [C(host)], {}, None)
             outs = I.explore(body)
             ctx.paths += len(outs)
